@@ -552,9 +552,12 @@ def analyse_all(cases, stats):
 
         # ---------------- C10
         # numeric tokens are paired by order, which is sound only when the token streams conform
-        if not (wf and conf_impl):
+        # (a well-formed sheet outside every known class whose output does not conform is a C08 violation already; its
+        # numeric tokens are still paired when their kinds line up, so that an unconverted rpx is reported under C10 too)
+        c10_on = wf and (conf_impl or not known)
+        if not c10_on:
             agg["c10_cases_skipped_nonconforming"] += 1
-        for b in (c10_case(c, agg) if wf and conf_impl else []):
+        for b in (c10_case(c, agg) if c10_on else []):
             what, src, want, got, in_known = b
             if in_known:
                 known_hits["C10"]["D16"] += 1
